@@ -31,6 +31,10 @@ on the bare part, or between add_measures and tie_notes), over every unit durati
 untyped notes that have no single notated value (two to four tied values, longer than a bar) are then
 still present when tuplets are searched; the same clauses apply after every operation.
 
+The spaces long-notes* are the magnitude dimension of the one-note family: one note held over 25 to 300 bars
+(2600 once the proposed fix C11-s-long-tie-chain is in), so that tie_notes builds tie chains of dozens to
+thousands of pieces, at 1 to 960 divisions per quarter; the same clauses apply after every operation.
+
 Edit cases (spaces edit-requery*) run a first pass, then move one untyped note or change the divisions
 through the public API, then run a second pass with the same clauses evaluated against the edited
 part (symbolic durations that the edit itself invalidates - values stored by the first pass on objects
@@ -76,6 +80,9 @@ ASSUMPTIONS = [
     "split, how many pieces, ids of new notes, the voice of filled rests and the fate of slurs are not compared",
     "the symbolic duration of a note that spans a change of divisions is not compared",
     "order of note-array rows with equal onset and pitch is not compared",
+    "long-notes*: ids of the notes tie_notes creates are not compared (the statement does not speak of them; only the id "
+    "column of the note array, i.e. the ids of the notes that start a chain, is); timeline positions stay below 2**31 "
+    "(2600 bars of 4/4 at 480 divisions = 4 992 000)",
     "edit cases: the moved note has, before the edit, a plain or dotted notated value and lies inside one bar, so no "
     "operation stores a symbolic duration on it and the library keeps estimating it from the numeric duration; after a "
     "change of divisions the symbolic durations stored earlier (rests, tied pieces, notes that are not plain or cross a "
@@ -1015,6 +1022,44 @@ def gen_voice_overlap(cfgs, n, orders, sh):
                 yield c
 
 
+# A genuine defect the space long-notes-wide found on the unchanged tree (proposed fix
+# proposed_fixes/C11-s-long-tie-chain.diff): GenericNote.duration_tied / end_tied / tie_next_notes /
+# tie_prev_notes are defined recursively, one Python frame per tied note, so Part.note_array() raises
+# RecursionError after tie_notes has split a note into about a thousand pieces (995 bars at the top level of a
+# script; fewer when the caller's stack is deeper).  While this is pending the instances of LONG_BARS_HUGE are
+# left out of the enumeration (the bounds text says so); with the fix they pass.  Set to False to run them.
+LONG_CHAIN_PENDING = True
+
+LONG_BARS = [25, 26, 27, 28, 29, 30, 40, 100]
+LONG_BARS_WIDE = LONG_BARS + [60, 300]
+LONG_BARS_HUGE = [1100, 2600]
+
+
+def gen_long_notes(qs, lays, bars, orders, cycle, sh):
+    """magnitude dimension of one-note: a held note (pedal point) over `bars` bars of the last signature of
+    the layout plus a tail of 0 or 1 division, starting on the first bar line, one division after it, or in
+    the middle of a bar, over a quarter note of a second voice at the start; the divisions scale every time
+    (1 to 960 divisions per quarter).  tie_notes has to split the note into bars(+1) tied notes (chains of 25
+    to 31 pieces one by one, then 40 .. 2600); operation orders all (cycle False) or one per case in turn"""
+    k = 0
+    for q in qs:
+        for lay in lays:
+            ts, ms = layout(q, lay)
+            bar = int(bar_q(lay[1][-1][1]) * q)
+            for nb in bars:
+                for s in sorted(set([0, 1, bar // 2])):
+                    for tail in (0, 1):
+                        k += 1
+                        for j, ops in enumerate(orders):
+                            if cycle and j != k % len(orders):
+                                continue
+                            if not sh.take():
+                                continue
+                            c = mk([[0, q]], ts, ms, [[s, s + nb * bar + tail, 1, 1, 1], [0, q, 0, 2, 1]], ops)
+                            if valid(c):
+                                yield c
+
+
 EDIT_DIVS = [1, 2, 3, 4, 6, 8]
 EDIT_OPS = [("Q", "Q"), ("Q", "ATURS"), ("ATUR", "ATURS")]
 EDIT_OPS_WIDE = [(a, b) for a in ("Q", "AT", "ATUR", "AUGS") for b in ("Q", "ATURS", "ATUGS", "ARS")]
@@ -1152,6 +1197,20 @@ def spaces(tier, seed):
         "6 layouts x divs %s x every (onset, end) within %d divisions x operation orders %s" % (oq, ospan, ORDERS[:2]))
     add("one-note-orders", lambda sh: gen_one_note(oq, ospan, ORDERS[2:], sh), 12,
         "as one-note with the operation orders %s" % (ORDERS[2:],))
+    # -- magnitude dimension: the same one-note family held over dozens to thousands of bars, small and large divisions
+    add("long-notes", lambda sh: gen_long_notes([1, 480], LAYOUTS, LONG_BARS, ORDERS[:2], True, sh), 1,
+        "6 layouts x divs {1, 480} x one note held over N bars of the last signature, N in %s (tie chains of 25..31 pieces one by "
+        "one, 41, 101), plus a tail of 0 or 1 division, starting at 0, 1 division or half a bar, over one quarter note of a second "
+        "voice; operation orders %s in turn" % (LONG_BARS, ORDERS[:2]))
+    add("long-notes-wide",
+        lambda sh: itertools.chain(
+            gen_long_notes([1, 2, 3, 480, 960], LAYOUTS, LONG_BARS_WIDE, ORDERS, False, sh),
+            [] if LONG_CHAIN_PENDING else gen_long_notes([1, 480], LAYOUTS, LONG_BARS_HUGE, ORDERS[:2], False, sh)), 32,
+        "as long-notes with divs {1,2,3,480,960}, N in %s, every operation order of %s%s" % (
+            LONG_BARS_WIDE, ORDERS,
+            "; N in %s (a tie chain of about a thousand pieces and more: Part.note_array raises RecursionError) left out while the "
+            "proposed fix C11-s-long-tie-chain is pending" % (LONG_BARS_HUGE,) if LONG_CHAIN_PENDING else
+            "; N in %s with divs {1,480} and the operation orders %s" % (LONG_BARS_HUGE, ORDERS[:2])))
     add("two-notes", lambda sh: gen_two_notes([1, 2, 4], 12, LAYOUTS[:3] + LAYOUTS[4:5], ORDERS, sh), 48,
         "divs {1,2,4} x 4 layouts x every unordered pair of (onset, end) within 12 divisions x {one voice, two voices, two staves} "
         "x pitch {same, other}; operation orders cycled")
